@@ -74,8 +74,10 @@ Fixpoint hist_in_range (f : lfield) (ops : list aop) : bool :=
 
 (* ------------------------------------------------------------------ canonical trees *)
 (* what Relation::new builds, followed by set_archqual: name[:qual][ (op ver)] *)
+(* (a version is never the empty text: debversion does not parse "") *)
+Definition ver_ok (v : verspec) : bool := match v with Some (_, []) => false | _ => true end.
 Definition plain (r : relrec) : bool :=
-  match rr_archs r, rr_profs r with None, [] => true | _, _ => false end.
+  match rr_archs r, rr_profs r with None, [] => ver_ok (rr_ver r) | _, _ => false end.
 Definition crel_tree (r : relrec) : rtree :=
   Node RELATION (Tok IDENT (rr_name r) ::
      (match rr_qual r with Some q => [archqual_node q] | None => [] end) ++
@@ -94,8 +96,7 @@ Definition plain_field (f : lfield) : bool := forallb plain_entry f.
 Definition rel_spec (r : relrec) : relspec :=
   match rr_qual r with
   | None => RSNew (rr_name r) (rr_ver r)
-  | Some q => RSBuild (rr_name r) (rr_ver r) (Some q)
-                      (match rr_archs r with Some a => a | None => [] end) (rr_profs r)
+  | Some q => RSBuild (rr_name r) (rr_ver r) (Some q) (rr_archs r) (rr_profs r)
   end.
 Definition entry_spec (e : list relrec) : entryspec := ESFromVec (map rel_spec e).
 Definition compile (o : aop) : list op :=
@@ -122,7 +123,8 @@ Definition new_only (r : relrec) : bool :=
 Definition aop_plain (o : aop) : bool :=
   match o with
   | APush e | AInsert _ e | AReplace _ e => forallb new_only e
-  | ARemoveEntry _ | ARemoveRelation _ _ | ASetVersion _ _ _ | ADropConstraint _ _ | ASetArchqual _ _ _ => true
+  | ASetVersion _ _ v => ver_ok v
+  | ARemoveEntry _ | ARemoveRelation _ _ | ADropConstraint _ _ | ASetArchqual _ _ _ => true
   | _ => false
   end.
 
